@@ -503,4 +503,52 @@ theorem rangeEnd_exact (offset length : Nat) (h1 : 1 ≤ length) (h2 : offset + 
   rw [e] at h2 ⊢
   omega
 
+/-! ### CDN cache keys: shape behind the checks (for the injectivity theorems of Props/C20) -/
+
+/-- the text after the last '/' and the text in front of it are determined by the whole. -/
+theorem last_seg_inj (p1 p2 l1 l2 : Str) (h1 : '/' ∉ l1) (h2 : '/' ∉ l2)
+    (h : p1 ++ '/' :: l1 = p2 ++ '/' :: l2) : p1 = p2 ∧ l1 = l2 := by
+  have hs := congrArg (segsBy '/') h
+  rw [segsBy_append_sep, segsBy_append_sep, segsBy_of_not_mem '/' l1 h1,
+    segsBy_of_not_mem '/' l2 h2] at hs
+  have := List.append_inj' hs rfl
+  exact ⟨segsBy_inj '/' _ _ this.1, by simpa using this.2⟩
+
+/-- what `download` stores under: after unfolding, for a key of at least two bytes. -/
+theorem downloadCacheKey_eq (basePath : Str) (ct : ContentType) (key : List Nat) (s : Str)
+    (h : downloadCacheKey basePath ct key = .ok s) :
+    s = (((sCdn ++ '/' :: trimSlashes basePath) ++ '/' :: ct.text) ++ '/' :: (hexEncode key).take 2 ++
+      '/' :: ((hexEncode key).drop 2).take 2) ++ '/' :: hexEncode key := by
+  unfold downloadCacheKey at h
+  split at h
+  · cases h
+  rename_i hlen
+  have hs : slice24 (hexEncode key) = some ((hexEncode key).take 2, ((hexEncode key).drop 2).take 2) :=
+    slice24_ascii _ (fun c hc => (hexEncode_chars key c hc).1) (by rw [hexEncode_length]; omega)
+  simp only [cdnTail, hs, Option.map_some, joinSep] at h
+  injection h with h
+  subst h
+  simp [List.append_assoc]
+
+theorem archiveIndexCacheKey_eq (basePath ak s : Str)
+    (h : archiveIndexCacheKey basePath ak = .ok s) :
+    ('/' ∉ ak) ∧ s = (((sCdn ++ '/' :: trimSlashes basePath) ++ '/' :: sData) ++ '/' :: ak.take 2 ++
+      '/' :: (ak.drop 2).take 2) ++ '/' :: (ak ++ sIndexExt) := by
+  unfold archiveIndexCacheKey at h
+  by_cases hok : archiveKeyOk ak = true
+  case neg => simp [hok] at h
+  simp only [hok, Bool.not_true, Bool.false_eq_true, if_false] at h
+  have hok' := hok
+  unfold archiveKeyOk at hok'
+  simp only [Bool.and_eq_true, decide_eq_true_eq] at hok'
+  have hfacts : ∀ c ∈ ak, c.utf8Size = 1 ∧ c ≠ '.' ∧ c ≠ '/' := fun c hc =>
+    isAsciiHexDigit_facts c (List.all_eq_true.mp hok'.2 c hc)
+  have hlen : 4 ≤ ak.length := by
+    rw [← utf8Len_ascii ak (fun c hc => (hfacts c hc).1)]; exact hok'.1
+  have hs := slice24_ascii ak (fun c hc => (hfacts c hc).1) hlen
+  simp only [cdnTail, hs, Option.map_some, joinSep] at h
+  injection h with h
+  subst h
+  exact ⟨fun hm => (hfacts '/' hm).2.2 rfl, by simp [List.append_assoc]⟩
+
 end Cascette.Proofs.CacheKeys
